@@ -108,7 +108,29 @@ def sig_start_step_with_raised_events(v: dict) -> bool:
     return sync_processed and settled_first
 
 
+def sig_stale_done_event(v: dict) -> bool:
+    """Some onDone take of a parallel state s in this step was driven by a done.state.s event that
+    was enqueued BEFORE s, or a final state inside s, was exited (cancel witness in between)."""
+    d = v["defn"]
+    out = v.get("out") or []
+    by_name = {t["name"]: t for t in d["trans"]}
+    owner_of = {d["trans"][i - 1]["name"]: s for s in d["states"] for i in d["tix"][s]["onDone"]}
+    for j, e in enumerate(out):
+        if e[0] != "on_transition" or e[2] not in owner_of:
+            continue
+        s = owner_of[e[2]]
+        if d["kind"][s] != "parallel":
+            continue
+        enqs = [i for i in range(j) if out[i][0] == "enq" and out[i][1] == d["doneEv"][s]]
+        for i in enqs:
+            for x in range(i + 1, j):
+                if out[x][0] == "cancel" and (out[x][1] == s or (out[x][1] in d["pdesc"][s] and d["kind"][out[x][1]] == "final")):
+                    return True
+    return False
+
+
 SIGNATURES: Dict[str, Callable[[dict], bool]] = {
+    "stale_done_event": sig_stale_done_event,
     "start_step": sig_start_step,
     "chain_was_cut": sig_chain_was_cut,
     "pure_with_recorded_history": sig_pure_with_recorded_history,
